@@ -25,13 +25,16 @@ theorem consumeBatch_same (s : St) : SameL s (consumeBatch s) := by
 
 theorem afterResults_same (s : St) : SameL s (afterResults s) ∧ inCall (afterResults s).cpc = true := by
   have h := consumeBatch_same s
-  unfold afterResults
-  dsimp only
-  split
-  · split
-    · split <;> exact ⟨⟨h.cfg, h.workers, h.procs, h.widCounter, h.rpc, h.rAlive, h.replQ⟩, rfl⟩
-    · exact ⟨⟨h.cfg, h.workers, h.procs, h.widCounter, h.rpc, h.rAlive, h.replQ⟩, rfl⟩
-  · exact ⟨⟨h.cfg, h.workers, h.procs, h.widCounter, h.rpc, h.rAlive, h.replQ⟩, rfl⟩
+  obtain ⟨c', heq, hcl⟩ := afterResults_pc s
+  rw [heq]
+  refine ⟨⟨h.cfg, h.workers, h.procs, h.widCounter, h.rpc, h.rAlive, h.replQ⟩, ?_⟩
+  rcases hcl with h | h | h | ⟨wid, h⟩ <;> subst h <;> rfl
+
+theorem afterBatch_same (s : St) : SameL s (afterBatch s) ∧ inCall (afterBatch s).cpc = true := by
+  obtain ⟨c', heq, hcl⟩ := afterBatch_eq s
+  rw [heq]
+  refine ⟨⟨rfl, rfl, rfl, rfl, rfl, rfl, rfl⟩, ?_⟩
+  rcases hcl with h | h | h <;> subst h <;> rfl
 
 theorem toNextCall_same (s : St) : SameL s (toNextCall s) ∧
     (((toNextCall s).cpc = .rInitSet ∧ s.cfg.factory = true) ∨ (toNextCall s).cpc = .fInitSet ∨
@@ -538,6 +541,16 @@ theorem LInv_stepC {s s' : St} (hI : LInv s) (h : stepC s = some s') : LInv s' :
             · exact workerExited_all hI (e2 j' hge hj' wid' hwid)
           · dsimp only; rw [e1]; intro hj; cases hj
       · cases h
+  case midReady i wid =>
+    split at h
+    · cases h
+    · split at h
+      · split at h
+        · simp only [Option.some.injEq] at h; subst h
+          exact LInv_inCall hI ⟨rfl, rfl, rfl, rfl, rfl, rfl, rfl⟩ (by rw [hpc]; rfl) rfl
+        · simp only [Option.some.injEq] at h; subst h
+          exact LInv_inCall hI (afterBatch_same _).1 (by rw [hpc]; rfl) (afterBatch_same _).2
+      · cases h
   case done => cases h
 
 /-! ### reachable states -/
@@ -550,6 +563,7 @@ theorem stepC_cfg {s s' : St} (h : stepC s = some s') : s'.cfg = s.cfg := by
        | rfl
        | exact (toNextCall_same _).1.cfg
        | exact (afterResults_same _).1.cfg
+       | exact (afterBatch_same _).1.cfg
        | (unfold afterEnter; split
           · rfl
           · exact (toNextCall_same _).1.cfg))
